@@ -26,6 +26,8 @@ def init():
 def gen(rng, tier, index):
     if index % 12 == 5:
         return gen_tzx.gen_landing(rng, tier, index)
+    if index % 12 == 11:
+        return gen_tzx.gen_repatch(rng, tier, index)
     if index % 3 == 2:
         return gen_tzx.gen_custom(rng, tier, index)
     if index % 3 == 1:
